@@ -401,6 +401,11 @@ func (x *Exec) SolveFiltered(opts SolveOpts) ([]*OblResult, bool) {
 		if r.Status == "error" {
 			continue
 		}
+		if isFalse(o.Goal) && !opts.Thorough {
+			// false by construction: dischargeable only if the path is infeasible, which the incremental run
+			// would have found; no point in racing three solvers on it
+			continue
+		}
 		wg.Add(1)
 		go func(i int, o *Obligation, r *OblResult) {
 			defer wg.Done()
